@@ -372,6 +372,20 @@ func (e *SpecEnv) evalCall(x *ast.CallExpr) Val {
 		body := ne.boolTerm(fl.Body.List[0].(*ast.ReturnStmt).Results[0])
 		rng := and(app("bvsle", lo, bv), app("bvslt", bv, hi))
 		if name == "govcForall" {
+			if pat := selectPattern(body, bv); pat != "" {
+				// re-index so that the trigger has a bare bound variable as index:
+				// (select A (bvadd OFF k))  ~>  (select A q) with q = OFF + k
+				if arr, idx, ok := splitSelect(pat); ok && strings.HasPrefix(idx, "(bvadd ") && strings.HasSuffix(idx, " "+bv+")") {
+					off := idx[len("(bvadd ") : len(idx)-len(" "+bv+")")]
+					if !containsSym(off, bv) {
+						q := vc.fresh("q_abs")
+						nb := strings.ReplaceAll(imp(rng, body), idx, q)
+						nb = replaceSym(nb, bv, "(bvsub "+q+" "+off+")")
+						return Val{T: types.Typ[types.Bool], L: []string{fmt.Sprintf("(forall ((%s %s)) (! %s :pattern ((select %s %s))))", q, sBV64, nb, arr, q)}}
+					}
+				}
+				return Val{T: types.Typ[types.Bool], L: []string{fmt.Sprintf("(forall ((%s %s)) (! %s :pattern (%s)))", bv, sBV64, imp(rng, body), pat)}}
+			}
 			return Val{T: types.Typ[types.Bool], L: []string{fmt.Sprintf("(forall ((%s %s)) %s)", bv, sBV64, imp(rng, body))}}
 		}
 		return Val{T: types.Typ[types.Bool], L: []string{fmt.Sprintf("(exists ((%s %s)) %s)", bv, sBV64, and(rng, body))}}
@@ -965,3 +979,107 @@ func (vc *VC) convert(v Val, to types.Type) (Val, error) {
 }
 
 var _ = constant.MakeBool
+
+// selectPattern picks an E-matching trigger for a bounded quantifier: the first
+// (select A I) sub-term whose index mentions the bound variable and whose array
+// does not.
+func selectPattern(body, bv string) string {
+	for i := 0; i+8 <= len(body); i++ {
+		if !strings.HasPrefix(body[i:], "(select ") {
+			continue
+		}
+		// find the extent of this term
+		depth := 0
+		j := i
+		for ; j < len(body); j++ {
+			if body[j] == '(' {
+				depth++
+			} else if body[j] == ')' {
+				depth--
+				if depth == 0 {
+					break
+				}
+			}
+		}
+		if j >= len(body) {
+			return ""
+		}
+		term := body[i : j+1]
+		// split "(select ARR IDX)"
+		inner := term[len("(select ") : len(term)-1]
+		k := 0
+		d := 0
+		for ; k < len(inner); k++ {
+			if inner[k] == '(' {
+				d++
+			} else if inner[k] == ')' {
+				d--
+			} else if inner[k] == ' ' && d == 0 {
+				break
+			}
+		}
+		if k >= len(inner) {
+			continue
+		}
+		arr, idx := inner[:k], inner[k+1:]
+		if containsSym(idx, bv) && !containsSym(arr, bv) {
+			return term
+		}
+	}
+	return ""
+}
+
+func containsSym(text, sym string) bool {
+	for _, s := range smtSymbols(text) {
+		if s == sym {
+			return true
+		}
+	}
+	return false
+}
+
+func splitSelect(term string) (arr, idx string, ok bool) {
+	if !strings.HasPrefix(term, "(select ") {
+		return "", "", false
+	}
+	inner := term[len("(select ") : len(term)-1]
+	d := 0
+	for k := 0; k < len(inner); k++ {
+		switch inner[k] {
+		case '(':
+			d++
+		case ')':
+			d--
+		case ' ':
+			if d == 0 {
+				return inner[:k], inner[k+1:], true
+			}
+		}
+	}
+	return "", "", false
+}
+
+// replaceSym replaces whole-symbol occurrences of sym in an SMT text.
+func replaceSym(text, sym, with string) string {
+	var b strings.Builder
+	i := 0
+	for i < len(text) {
+		j := strings.Index(text[i:], sym)
+		if j < 0 {
+			b.WriteString(text[i:])
+			break
+		}
+		j += i
+		end := j + len(sym)
+		before := j == 0 || strings.ContainsRune(" ()", rune(text[j-1]))
+		after := end >= len(text) || strings.ContainsRune(" ()", rune(text[end]))
+		b.WriteString(text[i:j])
+		if before && after {
+			b.WriteString(with)
+		} else {
+			b.WriteString(sym)
+		}
+		i = end
+	}
+	return b.String()
+}
